@@ -352,6 +352,8 @@ Proof.
   - simpl in H. destruct (boot P s) as [r' o'] eqn:EB. inversion H; subst. intros Hr.
     rewrite (boot_not_candidate _ _ _ _ _ EB eq_refl) in Hr. discriminate.
   - inversion H; subst. reflexivity.
+  - destruct (fsm_index s) as [fi ft]. eapply finish_cand; [|exact H]. intros s1 r tr fs' Hd _.
+    apply take_snapshot_same in Hd. destruct Hd as (_ & _ & C). exact C.
 Qed.
 
 (* ---------------------------------------------------------------- replacing one node *)
